@@ -476,3 +476,57 @@ def _envsf():
 
 
 SPECFUNCS.update(_envsf())
+
+
+# ---------------------------------------------------------------- regular-expression text (C18)
+def _rxsf():
+    esc = z3.Function('re_escape', T.Bytes, T.Bytes)
+    lang = z3.Function('rx_lang', T.Bytes, T.Bytes, T.B)       # s is in the language of the pattern text (full match, (?s))
+    strfmt = z3.Function('strfmt', T.S, T.Val, T.S)
+    enc = z3.Function('encode_ascii', T.S, T.Bytes)
+
+    def dotn(n):                                                # the text b".{n}" exactly as the code builds it
+        return enc(strfmt(z3.StringVal('.{%i}'), T.Val.VI(n)))
+    def hole(n):                                                # the text b"(?:.{n})" exactly as the code builds it
+        return enc(strfmt(z3.StringVal('(?:.{%i})'), T.Val.VI(n)))
+
+    def folds(ev, f):
+        """(rxfold, rxbegin): the assembled text and the running end position after the first j pieces (in position
+        order) of the regexp buffer f - defined by their unfolding (axioms added once per heap version)"""
+        st = ev.st
+        hrx = z3.Select(st.heap['FragmentsOfRegexps.regexp_by_position#has'], f.z)
+        vrx = z3.Select(st.heap['FragmentsOfRegexps.regexp_by_position#val'], f.z)
+        vfr = z3.Select(st.heap['Fragments.fragments#val'], f.z)
+        sk = z3.Function('dsorted_key', hrx.sort(), T.I, T.I)
+        F = z3.Function('rxfold', hrx.sort(), vrx.sort(), vfr.sort(), T.I, T.Bytes)
+        Bg = z3.Function('rxbegin', hrx.sort(), vrx.sort(), vfr.sort(), T.I, T.I)
+        key = ('rxfold',)
+        if key not in ev.eng._facts_added:
+            ev.eng._facts_added.add(key)
+            H = z3.Const('H!rf', hrx.sort()); R = z3.Const('R!rf', vrx.sort()); Fr = z3.Const('F!rf', vfr.sort())
+            j = z3.Int('j!rf')
+            kj = sk(H, j)
+            gap = kj - Bg(H, R, Fr, j)
+            step = z3.If(gap > 0, T.bconcat(T.bconcat(F(H, R, Fr, j), hole(gap)), z3.Select(R, kj)),
+                         T.bconcat(F(H, R, Fr, j), z3.Select(R, kj)))
+            ev.eng.extra_hyps += [
+                z3.ForAll([H, R, Fr], z3.And(F(H, R, Fr, 0) == T.bempty, Bg(H, R, Fr, 0) == 0), patterns=[F(H, R, Fr, 0)]),
+                z3.ForAll([H, R, Fr, j], z3.Implies(j >= 0, z3.And(F(H, R, Fr, j + 1) == step,
+                                                                    Bg(H, R, Fr, j + 1) == kj + T.blen(z3.Select(Fr, kj)))),
+                          patterns=[F(H, R, Fr, j + 1)]),
+                z3.ForAll([H, R, Fr, j], z3.Implies(j >= 0, Bg(H, R, Fr, j + 1) == kj + T.blen(z3.Select(Fr, kj))),
+                          patterns=[Bg(H, R, Fr, j + 1)]),
+            ]
+        return (lambda n: F(hrx, vrx, vfr, n)), (lambda n: Bg(hrx, vrx, vfr, n))
+
+    return {
+        'rxfold': lambda ev, f, n: VBytes(folds(ev, f)[0](ev.eng.as_int(n)[0])),
+        'rxbegin': lambda ev, f, n: VInt(folds(ev, f)[1](ev.eng.as_int(n)[0])),
+        'hole_rx': lambda ev, n: VBytes(hole(ev.eng.as_int(n)[0])),
+        're_escape': lambda ev, b: VBytes(esc(b.z)),
+        'lang': lambda ev, rx, s: VBool(lang(rx.z, s.z)),
+        'dot_n': lambda ev, n: VBytes(dotn(ev.eng.as_int(n)[0])),
+    }
+
+
+SPECFUNCS.update(_rxsf())
